@@ -183,6 +183,21 @@ def bookkeeping(rec: dict, viol: list, cnt: dict, background: bool):
                     all_missed.extend(j["missed"])
                 else:
                     cnt["records_pending_after_the_last_output_step"] = cnt.get("records_pending_after_the_last_output_step", 0) + len(j["obs"]) + len(j["missed"])
+        # every observation the step's jobs produced (all engines) reaches the filter of its target, exactly once
+        if st.get("updates") is not None or any(j["obs"] for j in st["jobs"]):
+            made = {}
+            for j in st["jobs"]:
+                for o in j["obs"]:
+                    made.setdefault(o[2], []).append(tuple(o))
+            tracked = set(st.get("estimates", {}))
+            for tid in sorted(set(made) & tracked):
+                got_u = sorted(tuple(o) for o in st.get("updates", {}).get(tid, {}).get("order", []))
+                if got_u != sorted(made[tid]):
+                    viol.append({"clause": "observations-not-delivered-to-filter", "key": "two-engines" if len({j["engine"] for j in st["jobs"] if any(o[2] == tid for o in j["obs"])}) > 1 else "update",
+                                 "detail": f"step {k} target {tid}: the step's task jobs produced {len(made[tid])} observations of it (sensors {sorted(o[1] for o in made[tid])}), "
+                                           f"its filter was updated with {len(got_u)} (sensors {sorted(o[1] for o in got_u)})"})
+                else:
+                    cnt["filter_updates_matched_with_the_observations_made"] = cnt.get("filter_updates_matched_with_the_observations_made", 0) + 1
         sens_multi = [s for s, v in returned.items() if len({x for x in v}) > 1]
         if sens_multi:
             cnt["sensor_with_conflicting_job_pointings"] = cnt.get("sensor_with_conflicting_job_pointings", 0) + 1
